@@ -105,7 +105,7 @@ func genRejection18(t *rapid.T, sc *Scenario) string {
 		if c.Form == FormREST || c.Form == FormConnectGet || len(c.Msgs) == 0 {
 			return ""
 		}
-		if len(c.Msgs[0]) == 0 && (c.Codec == CodecProto || c.Codec == CodecText) && c.Compression == "" {
+		if len(c.Msgs[0]) == 0 && (c.Codec == CodecProto || c.Codec == CodecText) && (c.Compression == "" || (len(c.MsgRaw) > 0 && c.MsgRaw[0])) {
 			return ""
 		}
 		sc.Config.Protocols = []string{ProtoREST}
